@@ -42,6 +42,7 @@ FINDINGS.update({
     "C08-bucket-misses-update": "SaveFunction does not tell the built field buckets about a modified treasure: the accelerated route serves it under its old field value",
     "C08-bucket-misses-delete": "deleteHandler does not tell the built field buckets: the accelerated route still serves the deleted treasure",
     "C08-bucket-build-drops-pending": "mutations that arrive while a bucket build is in flight are not replayed by DrainPending",
+    "C08-bucket-served-before-drain": "a field bucket is EqualityInitialized as soon as BuildEquality returns, before its builder drained the pending buffer: a reader that comes in that window is served without the saves/deletes that completed meanwhile",
 })
 FINDINGS["C08-window-on-key-index"] = ("with the key index and a time window the scan route ignores the window (findInKeyBeacon) while "
                                        "applyTimeRange filters the candidates by timestamp 0: FromTime > 0 empties the accelerated route")
@@ -55,17 +56,21 @@ class Shadow:
         self.texts = {}
         self.queried = False            # a query ran in this case (a bucket may be built)
         self.mutated_after_query = False
+        self.held = False               # a first query is held inside GetOrBuildBucket (op bq … release)
+        self.mutated_while_held = False
 
     def put(self, k, c, u, e, text):
         old = self.ts.get(k, (0, 0, 0))
         self.ts[k] = (c or old[0], u or old[1], e or old[2])
         self.texts[k] = text
         self.mutated_after_query = self.mutated_after_query or self.queried
+        self.mutated_while_held = self.mutated_while_held or self.held
 
     def delete(self, k):
         self.ts.pop(k, None)
         self.texts.pop(k, None)
         self.mutated_after_query = self.mutated_after_query or self.queried
+        self.mutated_while_held = self.mutated_while_held or self.held
 
     def attr(self, idx, key):
         if idx == "key":
@@ -107,6 +112,8 @@ def signature(fid, f, sh):
     if fid == "C08-scan-equality-not-canonical":
         # a float / time value in a body, a special float, or an integer beyond float64's exact range
         return any(re.search(r"[:,\[]f[-+N\d]|[:,\[]t\d|[iu]-?\d{16,}", t or "") for t in sh.texts.values())
+    if fid == "C08-bucket-served-before-drain":
+        return sh.held and sh.mutated_while_held   # only a reader inside the window, after a mutation inside the window
     if fid.startswith("C08-bucket-misses-") or fid == "C08-bucket-build-drops-pending":
         return sh.mutated_after_query   # a bucket can only be stale about something that changed after it was built
     if fid == "C08-special-path-hinted":
@@ -141,11 +148,18 @@ def judge(c):
             sh.put(f[1], int(f[2]), int(f[3]), int(f[4]), None)
         elif f[0] == "del" and len(f) == 2:
             sh.delete(f[1])
+        elif f[0] == "bq" and impl == "held":
+            sh.held, sh.mutated_while_held, sh.queried = True, False, True
+            stats["held_builds"] = stats.get("held_builds", 0) + 1
+        elif f[0] == "release":
+            sh.held = False
         if f[0] != "q" or len(f) != 9:
             if impl != model:
                 mism.append(i)
             continue
         stats["queries"] += 1
+        if sh.held:
+            stats["queries_while_build_held"] = stats.get("queries_while_build_held", 0) + 1
         if sh.mutated_after_query:
             stats["after_mutation_of_built_bucket"] = stats.get("after_mutation_of_built_bucket", 0) + 1
         stats["by_index"][f[1] + "/" + f[2]] = stats["by_index"].get(f[1] + "/" + f[2], 0) + 1
